@@ -132,6 +132,9 @@ def cases_for(method, needs, ds, params, tier, rng):
                 out.append(make_case(method, "U", o, entry, backs[(e + j) % len(backs)], src, params))
     for o in FULL_ORDERS:
         out.append(make_case(method, "E", o, "range", "eigen", src, params))
+    # tapkee::embed called directly (the chain's own target): eigen callbacks, counting callbacks
+    out.append(make_case(method, "X", "KDF", "range", "eigen", src, params))
+    out.append(make_case(method, "Y", "KDF", "range", backs[j % len(backs)], src, params))
     for i, o in enumerate(FULL_ORDERS):
         if set(o) == set(needs):
             continue
@@ -349,7 +352,7 @@ def judge(ctx, ds, cases, results, needs, model, stats):
         if rf is None or nd is None:
             continue
         mo = model[idx] if model else None
-        supplied = set(KINDS) if c["fam"] in ("M", "E") else set(c["order"])
+        supplied = set(KINDS) if c["fam"] in ("M", "E", "X", "Y") else set(c["order"])
         enough = set(nd) <= supplied
         stats["outcomes"][r["kind"]] = stats["outcomes"].get(r["kind"], 0) + 1
         tag = "%s/%s/%s/%s/%s" % (c["fam"], c["order"] or "-", c["entry"], c["back"], ds["kind"])
@@ -378,7 +381,7 @@ def judge(ctx, ds, cases, results, needs, model, stats):
                 stats["distinct"].add(hashlib.sha1(json.dumps([ds["x"][:6], c["m"], c["fam"], c["order"], c["entry"],
                                                                 c["back"], c["nm"], c["em"]]).encode()).hexdigest())
         # ---- counters: who was called
-        if r["kind"] in ("OK", "EXC") and c["fam"] in ("U", "O"):
+        if r["kind"] in ("OK", "EXC") and c["fam"] in ("U", "O", "Y"):
             cnt = r["counts"]
             if cnt[12] != 0:
                 ctx.violation(replay_obj(ds, c), "%s (%s): the library converted a data OBJECT to an index %d times "
